@@ -314,9 +314,12 @@ class ParseAPI(object):
         if data is None or self._wif_prefix is None or not data.startswith(self._wif_prefix):
             return None
         data = data[len(self._wif_prefix) :]
-        is_compressed = len(data) > 32
+        # a WIF payload is a 32-byte exponent, optionally followed by the marker 0x01
+        is_compressed = len(data) == 33 and data[-1:] == b"\x01"
         if is_compressed:
             data = data[:-1]
+        if len(data) != 32:
+            return None
         se = from_bytes_32(data)
         return self._network.keys.private(se, is_compressed=is_compressed)
 
